@@ -33,6 +33,28 @@ NearPerp == UNION { { [kind |-> "near", fam |-> "perp", b1 |-> b1, k |-> 1, sgn 
                        e |-> e, t |-> NearPerpTerms(b1, r[1], r[2]), cls |-> NearClass("perp", 1)] :
                       e \in Exps, r \in PerpPairs(b1) } : b1 \in Dirs }
 
-ASSUME ndJsonSerialize(IOEnv.OUT_FILE, SetToSeq(Pairs) \o SetToSeq(NearPar) \o SetToSeq(NearPerp))
-ASSUME PrintT(<<"CASES", Cardinality(Pairs), Cardinality(NearPar), Cardinality(NearPerp)>>)
+(* ------------------------------------------------------------------ layout batches *)
+(* every layout x shared record x pixel record: the configuration pixel i must see and its *)
+(* exact integers.  The harness groups the records by (layout, shared) into one call each, *)
+(* passes the shared roles as 0-d variables and the others per pixel (in all Memories).    *)
+ShSrc == { <<0, 0, -2>>, <<-1, 1, -3>> }
+ShSmp == { Zero3, <<1, -2, 3>> }
+ShDet == { <<2, 1, 0>>, <<-1, 3, 4>> }
+PxSrc == { <<0, 0, -1>>, <<3, 0, 1>>, <<-2, 5, -4>> }
+PxSmp == { Zero3, <<0, 1, 0>> }
+Shareds == [src : ShSrc, smp : ShSmp, det : ShDet]
+Pixels  == [src : PxSrc, smp : PxSmp, det : Box(Unit)]
+LayRec(lay, sh, px) == LET c == Element(lay, sh, px) IN
+    [kind |-> "lay", layout |-> lay, shared |-> sh, pix |-> px, c |-> c, x |-> Exact(c)]
+Lays == { LayRec(lay, sh, px) : lay \in Layouts \ {"scalars"}, sh \in Shareds, px \in Pixels }
+        \cup { LayRec("scalars", sh, sh) : sh \in Shareds }
+LaysProper == { r \in Lays : Proper(r.c) }
+(* broadcasting theorems of the definitions (checked here on the exported population) *)
+ASSUME \A sh \in Shareds : \A lay \in Layouts : Element(lay, sh, sh) = sh
+ASSUME \A sh \in Shareds, px \in Pixels : Element("pixelwise", sh, px) = px /\ Element("scalars", sh, px) = sh
+ASSUME \A r \in Lays : \A role \in {"src", "smp", "det"} :
+          r.c[role] = IF role \in SharedRoles(r.layout) THEN r.shared[role] ELSE r.pix[role]
+
+ASSUME ndJsonSerialize(IOEnv.OUT_FILE, SetToSeq(Pairs) \o SetToSeq(NearPar) \o SetToSeq(NearPerp) \o SetToSeq(LaysProper))
+ASSUME PrintT(<<"CASES", Cardinality(Pairs), Cardinality(NearPar), Cardinality(NearPerp), Cardinality(LaysProper)>>)
 =============================================================================
